@@ -42,7 +42,8 @@ def run(ctx):
     for _ in range(nrand):
         r, c = rng.choice([(1, 1), (1, 3), (2, 2), (3, 4), (4, 5), (24, 80)] if rng.random() < 0.9 else [(5, 1), (2, 7)])
         n = rng.randrange(1, 31)
-        cases.append((r, c, [D.rand_op(rng, r, c, chars) for _ in range(n)]))
+        # one case in five: cells that hold characters some string methods treat as line breaks (NEL, FF, CR, FS, VT, LS) - a cell is a cell
+        cases.append((r, c, [D.rand_op(rng, r, c, chars if rng.random() < 0.8 else 'ab\x85\x0c\r\x1c\x0b\u2028 \u00e9') for _ in range(n)]))
     try:
         mouts = common.run_model([D.model_line(r, c, ops) for (r, c, ops) in cases])
     except common.ModelUnavailable as e:
@@ -71,6 +72,7 @@ def run(ctx):
     elif corr_fail:
         r, c, ops, real, mo = corr_fail
         ctx.broken.append('correspondence Screen model vs pexpect.screen on %dx%d %s: %s' % (r, c, json.dumps(ops)[:300], first_diff(real, mo)))
+    stage_rejected(ctx)
     ctx.cov['exhaustive_part'] = dict(cases=nex, sizes=sizes, depth=depth, note='every op x argument classes {below, edge, above} after a cell-distinguishing prefix')
     ctx.cov['op_histogram'] = dict(opcount)
     return common.finish(
@@ -80,6 +82,44 @@ def run(ctx):
         len(cases), len(sigs),
         assumptions=['characters are single code points; put_abs("") (IndexError on an empty string) is outside the input domain',
                      'rows, cols >= 1'])
+
+
+def stage_rejected(ctx):
+    """an operation that refuses its argument (bytes on a screen built with encoding=None; an undecodable byte under a strict codec) raises
+    and changes nothing: the grid, the cursor, the saved cursor and the scroll region are what they were"""
+    from pexpect import screen as SCR
+    rng = ctx.rng
+    n = 0
+    for it in range(60 if ctx.quick() else 1500):
+        r, c = rng.choice([(2, 3), (3, 4), (4, 5), (1, 4)])
+        kw, bad = rng.choice([(dict(encoding=None), b'x'), (dict(encoding='utf-8', encoding_errors='strict'), b'\xff'),
+                              (dict(encoding='ascii', encoding_errors='strict'), b'\xe9')])
+        s = SCR.screen(r, c, **kw)
+        for i in range(1, r + 1):
+            for j in range(1, c + 1):
+                s.put_abs(i, j, chr(97 + ((i * c + j) % 20)))
+        for _ in range(rng.randrange(0, 5)):
+            o = D.rand_op(rng, r, c, 'xyz', allow_bytes=False)
+            getattr(s, D.OPS[o[0]][0])(*[chr(a) if (o[0] in D.CHAR_LAST and k == len(o) - 2) else a for k, a in enumerate(o[1:])])
+        snap = ([list(row) for row in s.w], s.cur_r, s.cur_c, s.cur_saved_r, s.cur_saved_c, s.scroll_row_start, s.scroll_row_end)
+        name = rng.choice(['put_abs', 'put', 'insert_abs', 'insert', 'fill', 'fill_region'])
+        R = lambda: D.rand_coord(rng, r)
+        C = lambda: D.rand_coord(rng, c)
+        args = {'put_abs': [R(), C(), bad], 'put': [bad], 'insert_abs': [R(), C(), bad], 'insert': [bad], 'fill': [bad], 'fill_region': [R(), C(), R(), C(), bad]}[name]
+        try:
+            getattr(s, name)(*args)
+            outcome = 'accepted'
+        except (TypeError, UnicodeDecodeError) as e:
+            outcome = type(e).__name__
+        n += 1
+        after = ([list(row) for row in s.w], s.cur_r, s.cur_c, s.cur_saved_r, s.cur_saved_c, s.scroll_row_start, s.scroll_row_end)
+        if outcome != 'accepted' and after != snap:
+            common.report(ctx, 'screen/rejected/%s' % name,
+                          'screen %dx%d (%s): %s(%s) raised %s and still changed the screen: %r -> %r' % (
+                              r, c, kw, name, ', '.join(repr(a) for a in args), outcome, [''.join(x) for x in snap[0]], [''.join(x) for x in after[0]]),
+                          dict(rows=r, cols=c, screen_kw=repr(kw), op=name, args=[repr(a) for a in args]))
+            break
+    ctx.cov['rejected_operations'] = n
 
 
 def first_diff(a, b):
